@@ -526,6 +526,11 @@ func richValue(t *rapid.T, k string, n int) val.V {
 
 func drawChain(t *rapid.T) (chain.Case, []val.KV) {
 	cs := chain.DrawConforming(t, chain.GenOpt{MaxLen: 3, Commands: true, Policies: true, Args: true, Irrelevant: true})
+	if rapid.IntRange(0, 3).Draw(t, "deviate") == 1 {
+		// a chain that must be refused, in any of the ways a chain can be wrong (proofs in another order, a link
+		// about someone else, a missing proof, ...): a refusal leaves the tokens exactly as an approval does
+		chain.ApplyPrincipalDeviation(t, &cs, rapid.SampledFrom(chain.PrincipalDeviations).Draw(t, "devkind"))
+	}
 	var alt []val.KV
 	if rapid.Bool().Draw(t, "rich") {
 		// arguments holding collections and strings, an alternative argument set in which the same keys hold
@@ -552,7 +557,7 @@ func drawChain(t *rapid.T) (chain.Case, []val.KV) {
 			}
 			alt = append(alt, e)
 		}
-		if rapid.IntRange(0, 14).Draw(t, "huge") == 0 {
+		if len(cs.Links) > 0 && rapid.IntRange(0, 14).Draw(t, "huge") == 0 {
 			// one unusually large (but legal) check: a list argument of tens of thousands of elements under a
 			// quantifier. Alone it passes; it must pass just the same while other checks run
 			n := rapid.SampledFrom([]int{1000, 34000, 40000}).Draw(t, "hugen")
